@@ -208,8 +208,11 @@ def execute(check, tier, seed, budget_s=None, out=sys.stdout):
             n_items += 1
             if len(samples) < 3:
                 samples.append(check.sample_of(rec) if hasattr(check, "sample_of") else rec.get("sample", rec.get("item")))
-            if len(audit) < 4 and rec.get("item") is not None and not (rec["item"].get("case") or {}).get("no_audit"):
+            # determinism audit candidates: the cheapest few of the early items (an item can hold thousands of runs in the thorough tier)
+            if n_items <= 24 and rec.get("item") is not None and not (rec["item"].get("case") or {}).get("no_audit") and len(rec["runs"]) <= 600:
                 audit.append(rec)
+                audit.sort(key=lambda x: len(x["runs"]))
+                del audit[4:]
             for k, v in rec.get("probes", {}).items():
                 probes[k] = probes.get(k, 0) + v
             for run in rec["runs"]:
@@ -259,14 +262,22 @@ def execute(check, tier, seed, budget_s=None, out=sys.stdout):
     finally:
         pool.pool.terminate()
         pool.close()
+    if os.environ.get("VERIF_DEBUG_T"):
+        out.write("T campaign %.1fs items=%d audit_runs=%s\n" % (time.time() - t0, n_items, [len(a["runs"]) for a in audit]))
     if harness_err:
         out.write("HARNESS-ERROR %s\n" % harness_err)
         return 2
     # determinism audit on a few items of this very campaign (fresh supervisor process)
     sim = simclient.Sim("main")
     try:
-        for rec in audit:
-            again = runner(sim, rec["item"])
+        # re-executed in a second pool (other processes, other sandbox paths, other times), the items side by side
+        pool2 = simclient.Pool(nproc=max(1, min(4, len(audit))))
+        try:
+            agains = list(pool2.imap(runner, [rec["item"] for rec in audit])) if audit else []
+        finally:
+            pool2.pool.terminate()
+            pool2.close()
+        for rec, again in zip(audit, agains):
             if not again.get("ok"):
                 out.write("HARNESS-ERROR %s\n" % again.get("error"))
                 return 2
@@ -280,6 +291,8 @@ def execute(check, tier, seed, budget_s=None, out=sys.stdout):
                     pass
                 out.write("HARNESS-ERROR nondeterministic replay of a campaign item (event-log hashes differ; details in .cache/nondet-%s.json)\n" % check.prop)
                 return 2
+        if os.environ.get("VERIF_DEBUG_T"):
+            out.write("T audit done %.1fs\n" % (time.time() - t0))
         # confirm + report violations
         reported = []
         # witnesses of recorded findings of this property: an open finding's witness is expected to violate,
